@@ -86,6 +86,48 @@ fn problem(tree: &Tree, table: &Table, text: &str, compiled: bool, st: Option<&m
     }
 }
 
+/// the same on a small plain-data type (8 bytes, no drop glue) whose clones are observable: the
+/// value of a variable that occurs exactly once is moved, whatever the data type looks like
+fn small_type_problem(tree: &Tree, table: &Table, text: &str, compiled: bool) -> Option<String> {
+    use crate::pt::{self, Pt, FP};
+    let vars = tree.vars();
+    let n = vars.len();
+    let mut occ = vec![0usize; n];
+    occurrences(tree, &vars, &mut occ);
+    let r = catch(|| -> Result<Option<String>, String> {
+        let e = if compiled { FP::parse(text) } else { FP::parse_wo_compile(text) }.map_err(|e| format!("parse error: {}", e.msg()))?;
+        let values = |n: usize| (0..n).map(Pt::var).collect::<Vec<Pt>>();
+        pt::reset_counters(n);
+        let borrowed = e.eval(&values(n)).map_err(|e| format!("eval error: {}", e.msg()))?;
+        if pt::hole_reached_op() > 0 {
+            return Ok(Some("eval: a default placeholder reached an operator".into()));
+        }
+        for (which, f) in [("eval_vec", 0), ("eval_iter", 1)] {
+            pt::reset_counters(n);
+            let vals = values(n);
+            let got = if f == 0 { e.eval_vec(vals) } else { e.eval_iter(vals.into_iter()) }.map_err(|e| format!("{which} error: {}", e.msg()))?;
+            if pt::hole_reached_op() > 0 {
+                return Ok(Some(format!("{which}: a moved-out placeholder reached an operator")));
+            }
+            if got.h != borrowed.h {
+                return Ok(Some(format!("{which}: value differs from eval's")));
+            }
+            let cl = pt::clones();
+            for i in 0..n {
+                if occ[i] == 1 && cl[i] != 0 {
+                    return Ok(Some(format!("{which}: variable {} occurs once but was cloned {} time(s) (data type of {} bytes without drop glue)", vars[i], cl[i], std::mem::size_of::<Pt>())));
+                }
+            }
+        }
+        Ok(None)
+    });
+    match r {
+        Err(m) => Some(format!("panic: {m}")),
+        Ok(Err(m)) => Some(m),
+        Ok(Ok(p)) => p,
+    }
+}
+
 /// consuming evaluation of expressions produced by differentiation: their variable list keeps
 /// variables that no longer occur, while others occur several times
 fn derivative_case(rng: &mut crate::rng::Rng, st: &mut Stats) {
@@ -197,6 +239,24 @@ pub fn run(ctx: &Ctx) -> i32 {
                     st.bump("violations_raw");
                 }
             }
+            if i % 3 == 1 {
+                st.bump("cases_on_the_small_plain_data_type");
+                if let Some(p) = small_type_problem(&tree, &table, &text, compiled) {
+                    if st.violations.len() < 6 {
+                        let mut pred = |t: &Tree| small_type_problem(t, &table, &render_plain(t, &table), compiled).is_some();
+                        let small = if pred(&tree) { shrink_tree(&tree, &mut pred, 300) } else { tree.clone() };
+                        let stext = if small == tree { text.clone() } else { render_plain(&small, &table) };
+                        let p = small_type_problem(&small, &table, &stext, compiled).unwrap_or(p);
+                        st.violation(
+                            format!("small-type|{}|{}|{}|{}", if compiled { "folded" } else { "unfolded" }, p.split(':').next().unwrap_or(""), stext, used_ops_desc(&small, &table)),
+                            stext.len(),
+                            json!({"kind": "consuming-eval-small-plain-data-type", "text": stext, "table": table_desc(&table), "folded": compiled, "problem": p}),
+                        );
+                    } else {
+                        st.bump("violations_raw");
+                    }
+                }
+            }
             if st.samples.len() < st.max_samples && size > 3 && size < 9 {
                 st.sample(json!({"text": text, "folded": compiled}));
             }
@@ -204,12 +264,13 @@ pub fn run(ctx: &Ctx) -> i32 {
         st.add("operands_observed_by_operators", operands_seen());
     });
     let report = Report::new(
-        "random trees (1..100 operands) over 1..20 variables with arbitrary repetition, random tables and spellings, folded and unfolded FlatEx over the tracking value type Tok: eval_vec and eval_iter must return the identical term as eval (which must equal the reference tree mod AC), no default/moved-out placeholder may reach an operator (every operand an operator receives is inspected), the clone counter of each variable occurring exactly once must be 0 after a consuming evaluation, wrong arity must be an error. Every fifth case differentiates a parsed expression first (Tok is also a differentiable data type), because a derivative keeps variables that no longer occur while others occur several times. distinct_nontrivial = distinct (tree shape, table class, folded?) classes.",
+        "random trees (1..100 operands) over 1..20 variables with arbitrary repetition, random tables and spellings, folded and unfolded FlatEx over the tracking value type Tok: eval_vec and eval_iter must return the identical term as eval (which must equal the reference tree mod AC), no default/moved-out placeholder may reach an operator (every operand an operator receives is inspected), the clone counter of each variable occurring exactly once must be 0 after a consuming evaluation, wrong arity must be an error. Every third case is repeated on Pt, an 8-byte plain-data type without drop glue whose clones are counted (no shortcut for 'cheap' types may clone a variable that occurs once). Every fifth case differentiates a parsed expression first (Tok is also a differentiable data type), because a derivative keeps variables that no longer occur while others occur several times. distinct_nontrivial = distinct (tree shape, table class, folded?) classes.",
     )
     .assume("nothing is demanded about how many clones a repeated variable needs")
     .require("single_occurrence_vars_checked_for_moves", 1000)
     .require("repeated_vars", 1000)
     .require("operands_observed_by_operators", 10000)
-    .require("derivative_cases", 1000);
+    .require("derivative_cases", 1000)
+    .require("cases_on_the_small_plain_data_type", 10000);
     finish(ctx, stats, report)
 }
